@@ -85,6 +85,7 @@ let field name (items : sx list) : sx list =
     | [] -> failwith ("field " ^ name) in
   go items
 
+let overlay_bad : int list ref = ref []
 let decode_state (x : sx) : istate =
   let items = match lst x with A "state" :: it -> it | _ -> failwith "state" in
   let txs = List.map (fun t -> match lst t with
@@ -113,8 +114,18 @@ let decode_state (x : sx) : istate =
     | _ -> failwith "p") (field "props" items) in
   let av = ref [] in
   let cfgs = List.map (fun c -> match lst c with
-    | [ A "c"; t; idx; cm; prop; com; app; st; m; term; am; aterm; acm; raw; araw ] ->
+    | A "c" :: t :: idx :: cm :: prop :: com :: app :: st :: m :: term :: am :: aterm :: acm :: raw :: araw :: more ->
       av := (inum t, cm_of acm) :: !av;
+      (* with the entry's own copies listed (read from Atomix without the store's overlay) the model state is the stored
+         state exactly; what the store hands out (cm, acm) must then be their overlay with the path-value maps *)
+      let cm, acm = match more with
+        | [ inl; ainl ] ->
+          let vi = cm_of inl and vai = cm_of ainl in
+          let srt l = List.sort compare l in
+          if srt (overlay vi (cm_of raw)) <> srt (cm_of cm) || srt (overlay vai (cm_of araw)) <> srt (cm_of acm) then
+            overlay_bad := (inum t) :: !overlay_bad;
+          (inl, ainl)
+        | _ -> (cm, acm) in
       (* the stored path-value map is listed directly from Atomix; any inline map whose overlay with the stored map is
          the loaded view is equivalent to the real one: take the loaded views themselves *)
       (num t, { c_index = num idx; c_values = cm_of raw; c_avalues = cm_of araw; c_inline = cm_of cm; c_ainline = cm_of acm; c_proposed = num prop; c_committed = num com; c_applied = num app;
@@ -941,13 +952,14 @@ let check_result id (label : sx) (pre : istate) dl (res : string) =
 let validate id (label : sx) (pre : istate) (post : istate) dl =
   let posts = model_posts pre label (Some post) dl in
   let ci = canon post.w in
-  let first = ref None in
+  let first = ref None and last = ref None in
   let rec search = function
     | [] -> None
     | th :: rest ->
       let (w, info) = th () in
       let d = diff_canon (canon w) ci in
       if !first = None then first := Some (d, info);
+      last := Some (d, info);
       if d = None then Some w else search rest in
   match search posts with
   | Some w ->
@@ -958,7 +970,10 @@ let validate id (label : sx) (pre : istate) (post : istate) dl =
                                     (match label with L (A a :: _) -> a | _ -> "?") (String.concat ";" ml) (String.concat ";" il))
   | None ->
     let (d, info) = match !first with Some x -> x | None -> (None, "") in
-    mismatch id (Printf.sprintf "%s step %s %s: %s" (props_of_step label pre false) (String.concat " " (List.map (function A a -> a | L _ -> "(..)") (lst label))) info (match d with Some s -> s | None -> ""))
+    let other = match !last with
+      | Some (Some d2, info2) when !last <> !first -> Printf.sprintf " || last alternative %s: %s" info2 d2
+      | _ -> "" in
+    mismatch id (Printf.sprintf "%s step %s %s: %s%s" (props_of_step label pre false) (String.concat " " (List.map (function A a -> a | L _ -> "(..)") (lst label))) info (match d with Some s -> s | None -> "") other)
 
 let label_name (label : sx) = match lst label with
   | A "rec" :: A k :: _ -> "rec." ^ k
@@ -1004,6 +1019,11 @@ let () =
       let h = hist_of id in
       let label = parse_sx label in
       let post = decode_state (parse_sx st) in
+      if !overlay_bad <> [] then begin
+        mismatch id (Printf.sprintf "[C03,C15] what the configuration store hands out for target(s) %s is not the overlay of the entry's own copy and the path-value map"
+                       (String.concat "," (List.map string_of_int !overlay_bad)));
+        overlay_bad := []
+      end;
       let dl = decode_devlog (parse_sx dl) in
       let res = match rest with r :: _ -> r | [] -> "" in
       stat ("step." ^ label_name label);
